@@ -262,6 +262,9 @@ class AxolotlManager(object):
         except UntrustedIdentityException as ex:
             if autotrust:
                 self.trust_identity(ex.getName(), ex.getIdentityKey())
+                # the bundle was rejected before any session was built: now that its identity is trusted,
+                # build the session, otherwise the caller would go on using the one for the old identity
+                session_builder.processPreKeyBundle(prekeybundle)
             else:
                 raise exceptions.UntrustedIdentityException(ex.getName(), ex.getIdentityKey())
 
